@@ -1267,7 +1267,11 @@ func (bg *BondgoCheck) Visit(n ast.Node) ast.Visitor {
 			// fmt.Println(len(bg.Program))
 
 			needchan := false
-			for varname, cell := range vars {
+			// Walk the arguments in declaration order on both processors: the order
+			// decides the channel numbering and pairs each value sent with its receive
+			for _, arg := range functcell.Inputs {
+				varname := arg.Argname
+				cell := vars[varname]
 				if gent, _ := Type_from_string(bg.Basic_type); Same_Type(cell.Vtype, gent) {
 					needchan = true
 					bggoroutine.Reqs <- VarReq{REQ_NEW, bggoroutine.CurrentRoutine, cell}
@@ -1397,7 +1401,8 @@ func (bg *BondgoCheck) Visit(n ast.Node) ast.Visitor {
 						// Send the passed by value data to the channel
 						channame := procbuilder.Get_channel_name(cell.Id)
 
-						for _, cell := range vars {
+						for _, arg := range functcell.Inputs {
+							cell := vars[arg.Argname]
 							gent1, _ := Type_from_string(bg.Basic_type)
 							gent2, _ := Type_from_string("bool")
 							if Same_Type(cell.Vtype, gent1) || Same_Type(cell.Vtype, gent2) {
@@ -1442,7 +1447,8 @@ func (bg *BondgoCheck) Visit(n ast.Node) ast.Visitor {
 						// Get the data passed by value from the channel on the other side
 						ochanname := procbuilder.Get_channel_name(ocell.Id)
 
-						for _, cell := range newvars {
+						for _, arg := range functcell.Inputs {
+							cell := newvars[arg.Argname]
 							gent1, _ := Type_from_string(bg.Basic_type)
 							gent2, _ := Type_from_string("bool")
 							if Same_Type(cell.Vtype, gent1) || Same_Type(cell.Vtype, gent2) {
